@@ -57,6 +57,8 @@ def reset():
     _dcache.clear()
     UNDEF_ON[0] = False
     del UNDEF_REASONS[:]
+    ABS_ATOMS.clear()
+    del ABS_EVENTS[:]
     del DEFINED[:]
     del TINY_SEEN[:]
     PATH.start([])
@@ -281,6 +283,7 @@ def undef(reason="division by an exact zero"):
 
 
 UNDEF_REASONS = []
+ABS_ATOMS = set()        # radical atoms created by abs(): |x| is not complex-analytic
 
 
 def has_undef(x):
@@ -460,7 +463,14 @@ class RF:
     def __abs__(self):
         if self.is_const():
             return RF.const(abs(self.cval()))
-        return root(self * self, 2)
+        if UNDEF_ON[0] and has_undef(self):
+            return undef("propagated")
+        r = root(self * self, 2)
+        for m in r.p:
+            for a, e in m:
+                if A.kind[a] == 'rad':
+                    ABS_ATOMS.add(a)
+        return AbsRF(r.p, term_deps(self))
 
     def __gt__(self, o):
         return SymBool('>', self - self._coerce(o))
@@ -560,6 +570,58 @@ class RF:
 
     def __copy__(self):
         return self
+
+
+ABS_EVENTS = []        # variable sets of abs() results that were used arithmetically (not merely compared)
+
+
+class AbsRF(RF):
+    """the result of abs(x): behaves as its value, but records when it is used in arithmetic (|z| is not complex-analytic,
+    so a complex-step derivative does not see through it); comparisons (masks, branches on the real part) do not count"""
+    __slots__ = ("src",)
+
+    def __init__(self, p, src):
+        RF.__init__(self, p)
+        self.src = src
+
+    def _ev(self):
+        ABS_EVENTS.append(self.src)
+
+    def __add__(self, o):
+        self._ev()
+        return RF.__add__(self, o)
+
+    __radd__ = __add__
+
+    def __sub__(self, o):
+        self._ev()
+        return RF.__sub__(self, o)
+
+    def __rsub__(self, o):
+        self._ev()
+        return RF.__rsub__(self, o)
+
+    def __mul__(self, o):
+        self._ev()
+        return RF.__mul__(self, o)
+
+    __rmul__ = __mul__
+
+    def __truediv__(self, o):
+        self._ev()
+        return RF.__truediv__(self, o)
+
+    def __rtruediv__(self, o):
+        self._ev()
+        return RF.__rtruediv__(self, o)
+
+    def __pow__(self, n):
+        self._ev()
+        return RF.__pow__(self, n)
+
+    def __neg__(self):
+        self._ev()
+        return RF.__neg__(self)
 
 
 class SymBool:
@@ -1453,3 +1515,33 @@ def subs_indicators(f, value):
         if not dead:
             _acc(out, tuple(keep), c)
     return RF(out)
+
+
+def value_atoms(x, _seen=None):
+    """atoms the *value* of term x flows through (definitions followed through radicals, inverses, trigonometric,
+    exponential, definition and helper atoms -- not through the conditions of 0/1 indicator atoms)"""
+    seen = set() if _seen is None else _seen
+    stack = [a for m in x.p for a, e in m]
+    while stack:
+        a = stack.pop()
+        if a in seen:
+            continue
+        seen.add(a)
+        k = A.kind[a]
+        info = A.info[a]
+        sub = None
+        if k == 'rad':
+            sub = info[1]
+        elif k == 'inv':
+            sub = info
+        elif k in ('cos', 'exp', 'log', 'atan', 'acos', 'def'):
+            sub = info.p
+        elif k == 'sin':
+            stack.append(info)
+        elif k in ('fun', 'dfun'):
+            for arg in info[1]:
+                for t in arg:
+                    stack.extend(a2 for m in t.p for a2, e in m)
+        if sub is not None:
+            stack.extend(a2 for m in sub for a2, e in m)
+    return seen
